@@ -62,7 +62,7 @@ ENCODINGS = [
     ([12, 7, 3], 999), (["b", "a", "c"], None), (["no", "yes", "10"], "zz"),
 ]
 VARIANTS = ["reweight", "subset", "permute", "duplicate", "reweight", "move",
-            "fresh", "subset", "fresh"]
+            "fresh", "subset", "fresh", "reveal", "reveal"]
 
 coord = st.integers(-400, 400).map(lambda v: v / 100.0)
 lattice = st.integers(-2, 2).map(float)
@@ -77,6 +77,10 @@ def _sk_spec(draw, name):
     params = {}
     if clfreg.sk_info(name)["random_state"]:
         params["random_state"] = draw(seeds)
+    if name in ("LogisticRegression", "SGDClassifier") and draw(
+            st.integers(0, 3)) == 0:
+        # estimators that keep state across fit calls unless re-copied
+        params["warm_start"] = True
     return {"name": name, "params": params}
 
 
@@ -194,7 +198,15 @@ def _case(draw):
     variant = draw(st.sampled_from(VARIANTS))
     if variant == "reweight" and not weighted:
         variant = "move"
-    if variant == "subset":
+    hidden = []
+    if variant == "reveal":
+        # side A reveals the labels in two steps on ONE estimator object and
+        # with the SAME array objects (X, sample_weight); side B is a fresh fit
+        if n_lab >= 1:
+            hidden = sorted(set(draw(st.lists(st.integers(0, n_lab - 1),
+                                              min_size=1, max_size=n_lab))))
+        UB = [dict(u) for u in UA] if draw(st.booleans()) else []
+    elif variant == "subset":
         UB = []
     elif variant == "permute":
         perm = draw(st.permutations(list(range(n_unl))))
@@ -226,7 +238,7 @@ def _case(draw):
             Xq.append(draw(st.lists(coord, min_size=d, max_size=d)))
     return dict(component=clfreg.label(cfg), cfg=cfg, labels=labels,
                 n_annotators=A, Xl=Xl, yl=yl, wl=wl, UA=UA, UB=UB,
-                variant=variant, Xq=Xq)
+                variant=variant, Xq=Xq, hidden=hidden)
 
 
 def case_strategy(tier, shard=0, nshards=1):
@@ -274,12 +286,23 @@ def _arrays(case, X, y, w):
     return Xa, ya, wa
 
 
-def _observe(case, X, y, w):
-    """Fit one side and collect the observables."""
+def _observe(case, X, y, w, hidden=None):
+    """Fit one side and collect the observables. With `hidden` (positions of
+    labeled rows in the assembled arrays) the labels are revealed in two
+    steps on the same estimator with the same X / sample_weight objects."""
     cfg = case["cfg"]
     est = clfreg.build(cfg)
     Xa, ya, wa = _arrays(case, X, y, w)
     kw = {} if wa is None else {"sample_weight": wa}
+    if hidden:
+        y1 = ya.copy()
+        _, y_miss, _ = _arrays(case, X, [
+            (None if case["labels"] is None else
+             ([-1] * case["n_annotators"] if case["n_annotators"] else -1))
+            for _ in y], w)
+        for i in hidden:
+            y1[i] = y_miss[i]
+        est.fit(Xa, y1, **kw)
     est.fit(Xa, ya, **kw)
     Xq = np.array(case["Xq"], dtype=float)
     out = {}
@@ -300,6 +323,14 @@ def _observe(case, X, y, w):
         else:
             out["mean"] = np.asarray(est.predict(Xq), dtype=float)
     return out
+
+
+def _is_missing_row(v, is_clf):
+    if not is_clf:
+        return v is None
+    if isinstance(v, list):
+        return all(x == -1 or x is None for x in v)
+    return v is None or v == -1
 
 
 def run_case(case):
@@ -323,7 +354,19 @@ def run_case(case):
             if not 0 <= u["pos"] <= n_lab:
                 raise HarnessError("unlabeled position out of range")
         X, y, w = _assemble(case, U)
-        ok, r = guarded(_observe, case, X, y, w)
+        hid = None
+        if name == "A" and case.get("hidden"):
+            is_clf = case["labels"] is not None
+            miss_rows = [i for i, v in enumerate(y)
+                         if _is_missing_row(v, is_clf)]
+            lab_rows = [i for i in range(len(y)) if i not in set(miss_rows)]
+            hid = [lab_rows[p] for p in case["hidden"] if p < len(lab_rows)]
+            if (kind == "NICKernelRegressor" and weighted
+                    and len(hid) == len(lab_rows)):
+                # NICKernelRegressor documents a rejection of weights whose
+                # labeled part sums to zero (no labeled row at all)
+                hid = hid[:-1]
+        ok, r = guarded(_observe, case, X, y, w, hid)
         if not ok:
             trig = "valid_input"
             if (kind == "AnnotatorLogisticRegression" and weighted and U
